@@ -397,8 +397,10 @@ def run(ctx, res):
         if tame(c):
             cases.append(c)
     run_cases(ctx, res, cases)
-    if ctx.thorough:
-        fresh_process(ctx, res, cases[:80])
+    # determinism across processes / hash seeds: the set-iteration-sensitive inputs first (sibling-inherit cases,
+    # unordered solvers), a small sample in the quick tier, more in the thorough one
+    order = sorted(range(len(cases)), key=lambda i: (cases[i].get("only") != "unordered", i))
+    fresh_process(ctx, res, [cases[i] for i in order[: (80 if ctx.thorough else 24)]])
 
 
 def shrink(ctx, violation):
